@@ -127,19 +127,40 @@ def drive(cfg, ops):
                 y = p(field(fid), c, d)
                 outs = [((d, c), ('f', fid), y)]
             else:
-                _, fid = o
+                fid = o[1]
                 frames = cfg.get('frames', 1)
-                r = p.reconstruct(phases(fid, frames), get_complex=True)
-                outs = [((d, c), ('r', fid, fr, c), r[fr, d, c]) for fr in range(frames) for d in range(NDP) for c in range(NCH)]
+                if len(o) > 2 and o[2] == 'int':
+                    # the other documented mode: amplitude profiles per colour primary given, intensities returned
+                    r = p.reconstruct(phases(fid, frames), amplitude=amps(fid), get_complex=False)
+                    outs = [((d, c), ('ri', fid, fr, c), r[fr, d, c]) for fr in range(frames) for d in range(NDP) for c in range(NCH)]
+                else:
+                    r = p.reconstruct(phases(fid, frames), get_complex=True)
+                    outs = [((d, c), ('r', fid, fr, c), r[fr, d, c]) for fr in range(frames) for d in range(NDP) for c in range(NCH)]
         flags = [int(bool(p.generated_kernels[d, c])) for d in range(NDP) for c in range(NCH)]
         rec.append((flags, outs, R.calls, R.requests))
     return p, rec
 
 
-def recon_field(cfg, p, fid, fr, c):
+def amps(fid):
+    rng = np.random.default_rng(7000 + fid)
+    return torch.tensor(rng.uniform(0.2, 1.0, [NCH] + RES), dtype=torch.float32)
+
+
+def in_field(cfg, p, lab):
+    """the field the documented reconstruct() hands to the forward model for output label lab"""
+    if lab[0] == 'f': return field(lab[1])
+    return recon_field(cfg, p, lab[1], lab[2], lab[3], with_amp=lab[0] == 'ri')
+
+
+def as_output(lab, y):
+    """what reconstruct() stores for a propagated field y"""
+    return y.abs() ** 2 if lab[0] == 'ri' else y
+
+
+def recon_field(cfg, p, fid, fr, c, with_amp=False):
     from odak.learn.wave import generate_complex_field
     ph = phases(fid, cfg.get('frames', 1))
-    amp = torch.ones(RES)
+    amp = amps(fid)[c] if with_amp else torch.ones(RES)
     return generate_complex_field(p.get_laser_powers()[fr][c] * amp, ph[fr] * p.phase_scale[c])
 
 
@@ -151,10 +172,10 @@ def check_sequence(ctx, cfg, ops):
     for (flags, outs, _calls, _reqs), o in zip(rec, ops):
         for (d, c), lab, y in outs:
             fresh = make(cfg)
-            u = field(lab[1]) if lab[0] == 'f' else recon_field(cfg, fresh, lab[1], lab[2], lab[3])
+            u = in_field(cfg, fresh, lab)
             yf = fresh(u, c, d)
-            sc = max(1e-30, float(yf.abs().max()))
-            e1 = float((y - yf).abs().max()) / sc
+            sc = max(1e-30, float(as_output(lab, yf).abs().max()))
+            e1 = float((y - as_output(lab, yf)).abs().max()) / sc
             inp = {'cfg': cfg, 'ops': ops, 'at': [d, c, list(lab)]}
             if not e1 <= 1e-6:
                 ctx.violation('odak.learn.wave.propagator', 'equals_fresh_object', inp, 'fresh propagator output', {'max_rel_diff': e1}); viol += 1
@@ -178,7 +199,7 @@ def check_sequence(ctx, cfg, ops):
                     ctx.violation('odak.learn.wave.propagator', 'back_and_forth_is_net_distance', {'cfg': cfg, 'ops': ops, 'at': [d, c, ['f', 7]]}, 'forward propagator by z_d - image_location_offset', {'max_rel_diff': e3}); viol += 1
     # model term for Coq: same ops with integer field ids
     def fid_of(lab):
-        return lab[1] if lab[0] == 'f' else 500 + lab[1] * 20 + lab[2] * 4 + lab[3]
+        return lab[1] if lab[0] == 'f' else 500 + lab[1] * 20 + lab[2] * 4 + lab[3]      # 'r' and 'ri' of one id differ by the amplitude profile only
     terms = []
     for o in ops:
         if o[0] == 'call':
@@ -198,12 +219,12 @@ def check_sequence(ctx, cfg, ops):
     for (flags, outs, calls, reqs) in rec:
         for (d, c), lab, y in outs:
             if tuple(lab) not in cand:
-                cand[tuple(lab)] = field(lab[1]) if lab[0] == 'f' else recon_field(cfg, fresh, lab[1], lab[2], lab[3])
+                cand[tuple(lab)] = in_field(cfg, fresh, lab)
     expected, observed_ok, unident = [], True, 0
     for flags, outs, calls, reqs in rec:
         row = []
         for (d, c), lab, y in outs:
-            hit = [cl for cl in calls if close(crop(cl[2]), y, 1e-6)]
+            hit = [cl for cl in calls if close(as_output(lab, crop(cl[2])), y, 1e-6)]
             if float(y.abs().max()) == 0.0:
                 # a channel whose laser power is 0 in this frame: zero field in, zero field out, nothing to identify
                 row.append((d * 10 + c) * 1000 + fid_of(lab)); unident += 1; continue
@@ -263,7 +284,7 @@ def gen_cfg(rng, i):
 def gen_ops(rng, n):
     ops = []
     for _ in range(n):
-        if rng.random() < 0.2: ops.append(('recon', rng.randrange(3)))
+        if rng.random() < 0.25: ops.append(('recon', rng.randrange(3)) if rng.random() < 0.6 else ('recon', rng.randrange(3), 'int'))
         else: ops.append(('call', rng.randrange(NDP), rng.randrange(NCH), rng.randrange(6)))
     return ops
 
